@@ -90,7 +90,18 @@ def circle(radius, size, circle_centre=(0, 0), origin="middle"):
     #     output = 1
     # else:
     #     output = 0
-    mask = x * x + y * y <= radius * radius
+    dist2 = x * x + y * y
+    radius2 = radius * radius
+    mask = dist2 <= radius2
+    # radius * radius is rounded to a double: where the rounded product lands exactly on the squared
+    # distance of a pixel (e.g. radius = sqrt(18.5), which rounds down, its square up) the comparison
+    # above counts a pixel that lies just outside. Decide those (rare) ties in exact arithmetic.
+    ties = numpy.argwhere((dist2 == radius2) & numpy.isfinite(dist2))
+    if len(ties):
+        from fractions import Fraction
+        exact_radius2 = Fraction(float(radius)) ** 2
+        for i, j in ties:
+            mask[i, j] = (Fraction(float(x[i, j])) ** 2 + Fraction(float(y[i, j])) ** 2) <= exact_radius2
     C[mask] = 1
 
     # (5) Return:
